@@ -7,6 +7,7 @@ import (
 	"errors"
 	"fmt"
 	"io"
+	iofs "io/fs"
 	"path"
 	"sort"
 	"strings"
@@ -294,9 +295,10 @@ func (e *simExtractor) Extract(ctx context.Context, input *filesystem.ScanInput)
 
 // StandSpec defines a harness standalone extractor.
 type StandSpec struct {
-	Name  string `json:"name"`
-	NPkgs int    `json:"npkgs"`
-	Err   bool   `json:"err,omitempty"`
+	Name    string `json:"name"`
+	NPkgs   int    `json:"npkgs"`
+	Err     bool   `json:"err,omitempty"`
+	ErrKind string `json:"err_kind,omitempty"` // as DetSpec.ErrKind
 }
 
 type simStandalone struct {
@@ -315,6 +317,12 @@ func (e *simStandalone) Extract(ctx context.Context, input *standalone.ScanInput
 	e.probe.StCalls[e.spec.Name]++
 	e.probe.Rec.Add("standalone-begin", "", e.spec.Name, fmt.Sprintf("ctxerr=%v", ctx.Err() != nil))
 	if e.spec.Err {
+		switch e.spec.ErrKind {
+		case "canceled":
+			return inventory.Inventory{}, fmt.Errorf("standalone failure %s: %w", e.spec.Name, context.Canceled)
+		case "notexist":
+			return inventory.Inventory{}, fmt.Errorf("standalone failure %s: %w", e.spec.Name, iofs.ErrNotExist)
+		}
 		return inventory.Inventory{}, errors.New("standalone failure " + e.spec.Name)
 	}
 	var inv inventory.Inventory
@@ -338,6 +346,10 @@ type DetSpec struct {
 	Name     string        `json:"name"`
 	Findings []FindingSpec `json:"findings,omitempty"`
 	Err      bool          `json:"err,omitempty"`
+	// ErrKind: "" plain error | "canceled" (wraps context.Canceled) | "deadline" (wraps
+	// context.DeadlineExceeded) | "notexist" (wraps fs.ErrNotExist): whatever it wraps, a detector
+	// that returns an error failed.
+	ErrKind string `json:"err_kind,omitempty"`
 }
 
 type simDetector struct {
@@ -386,7 +398,16 @@ func (d *simDetector) Scan(ctx context.Context, root *scalibrfs.ScanRoot, px *pa
 	}
 	var err error
 	if d.spec.Err {
-		err = errors.New("detector failure " + d.spec.Name)
+		switch d.spec.ErrKind {
+		case "canceled":
+			err = fmt.Errorf("detector failure %s: %w", d.spec.Name, context.Canceled)
+		case "deadline":
+			err = fmt.Errorf("detector failure %s: %w", d.spec.Name, context.DeadlineExceeded)
+		case "notexist":
+			err = fmt.Errorf("detector failure %s: %w", d.spec.Name, iofs.ErrNotExist)
+		default:
+			err = errors.New("detector failure " + d.spec.Name)
+		}
 	}
 	return fs, err
 }
